@@ -317,6 +317,24 @@ static string do_help(const vector<string> &arg) {
       r.reset(f == 19 ? m.Get(q.get()) : f == 20 ? m.Set(q.get()) : m.GetDescription(q.get()));
       if (f == 20) a[1] = m.m_current_setting;
       break; }
+    case 24: {
+      UID uid(0x7a70, 1);
+      size_t n = a.size() / 2;
+      std::map<uint16_t, DimmerSubDevice*> subs;
+      for (size_t i = 0; i < n; i++) {
+        DimmerSubDevice *d = new DimmerSubDevice(uid, i + 1, n);
+        d->m_personality_manager.m_active_personality = a[2 * i];
+        d->m_start_address = a[2 * i + 1];
+        subs[i + 1] = d;
+      }
+      DimmerRootDevice root(uid, subs);
+      r.reset(root.SetDmxBlockAddress(q.get()));
+      for (size_t i = 0; i < n; i++) {
+        a[2 * i] = subs[i + 1]->m_personality_manager.m_active_personality;
+        a[2 * i + 1] = subs[i + 1]->m_start_address;
+        delete subs[i + 1];
+      }
+      break; }
     case 22: NEED(1) r.reset(ResponderHelper::GetTestData(q.get(), a[0])); break;
     case 23: NEED(1) r.reset(ResponderHelper::SetTestData(q.get(), a[0])); break;
     default: ok = false;
@@ -383,7 +401,6 @@ struct Target {
   string spec;                                   // kind description for the checker
   std::map<uint16_t, vector<uint16_t> > gets;   // sub-device -> GET-able PIDs
 };
-static const int NSUB = 2;
 static bool make_target(const string &kind, const UID &uid, Target *t) {
   bool incl;
   if (kind == "dummy") {
@@ -416,7 +433,9 @@ static bool make_target(const string &kind, const UID &uid, Target *t) {
     string tb = table_s(NetworkResponder::RDMOps::Instance(), &incl);
     t->spec = string("S:") + (incl ? "1" : "0") + ":" + tb;
     getpids(NetworkResponder::RDMOps::Instance(), &t->gets[0]);
-  } else if (kind == "dimmer") {
+  } else if (kind.compare(0, 6, "dimmer") == 0) {
+    // "dimmer" = 2 sub-devices, "dimmerN" = N sub-devices
+    const int NSUB = kind.size() > 6 ? static_cast<int>(vh::num(kind.substr(6))) : 2;
     t->dev.reset(new DimmerResponder(uid, NSUB));
     bool incl2;
     string rt = table_s(DimmerRootDevice::RDMOps::Instance(), &incl);
